@@ -257,6 +257,7 @@ def run(chk):
            'equals two rules' % norm(val, 70), fi=dj, node=pr_.node)
 
   K.inclusion_is_unnesting(chk, 'C11-R5')
+  K.dependency_walk_total(chk, 'C11-R4')
 
   chk.rule('C11-R3', 'the `=` and `->` library predicates exist in every '
            'dialect library with one common definition', min_instances=16)
